@@ -48,9 +48,12 @@ type httpReq struct {
 }
 
 type httpConn struct {
-	Svc       int       `json:"svc"` // 0: director host with port; 1, 2: two services / ports sharing one director whose host has no port
-	Pipelined bool      `json:"pipelined"`
-	Cut       int       `json:"cut"` // offset into the client's byte stream where the write is split (<=0: none)
+	Svc       int  `json:"svc"` // 0: director host with port; 1, 2: two services / ports sharing one director whose host has no port
+	Pipelined bool `json:"pipelined"`
+	Cut       int  `json:"cut"` // offset into the client's byte stream where the write is split (<=0: none)
+	// HalfClose: the client ends its sending side (TCP half-close) right after the last
+	// byte of its last request and then reads the outstanding replies
+	HalfClose bool      `json:"half_close,omitempty"`
 	Reqs      []httpReq `json:"reqs"`
 }
 
@@ -297,7 +300,13 @@ func (e *labEnv) runHTTPConn(hc httpConn, epoch, ci int) *httpClientResult {
 	if hc.Pipelined {
 		stream := bytes.Join(wires, nil)
 		werr := make(chan error, 1)
-		go func() { werr <- writeCut(c, stream, hc.Cut) }()
+		go func() {
+			err := writeCut(c, stream, hc.Cut)
+			if err == nil && hc.HalfClose {
+				c.(*net.TCPConn).CloseWrite()
+			}
+			werr <- err
+		}()
 		res.sentReqs = len(hc.Reqs)
 		for ri, q := range hc.Reqs {
 			g, err := readResp(br, c, q.Method)
@@ -320,6 +329,9 @@ func (e *labEnv) runHTTPConn(hc httpConn, epoch, ci int) *httpClientResult {
 			return res
 		}
 		off += len(w)
+		if hc.HalfClose && ri == len(hc.Reqs)-1 {
+			c.(*net.TCPConn).CloseWrite()
+		}
 		res.sentReqs = ri + 1
 		g, err := readResp(br, c, q.Method)
 		if err != nil {
@@ -675,6 +687,7 @@ func genHTTPConn(t *rapid.T) httpConn {
 	if hc.Cut < 0 || hc.Cut >= total {
 		hc.Cut = 0
 	}
+	hc.HalfClose = rapid.IntRange(0, 2).Draw(t, "half-close") == 0
 	return hc
 }
 
@@ -719,7 +732,7 @@ func (c httpCase) label() string {
 	return fmt.Sprintf("http/%s/clients=%d", mode, len(c.Conns))
 }
 
-const httpRule = "HTTP: 1..3 concurrent client connections, each drawn onto one of three http-proxy ports (own director whose host has a port / two services on two ports sharing ONE director whose host has no port, backends at 127.0.0.2:<same port>, so successive connections alternate between the shared director's ports in drawn order), each 1..4 requests (11 methods, origin-form targets with pct-encoding and queries, 0..10 headers with repeated and differently-cased names, Host naming the decoy, bodies 0..64 KiB as Content-Length or chunked, body content random / text / HTTP look-alike), lock-step or pipelined, one cut of the client stream (none, in the first head, around a request boundary, anywhere); backend replies (15 status codes, 0..6 headers, bodies 0..64 KiB as Content-Length or chunked) written in 1..5 pieces; oracle: backend's parsed view == sent, client's parsed view == backend's script, events attributed to the client's address, decoy untouched; non-trivial = a request with a body or >=2 requests on one connection"
+const httpRule = "HTTP: 1..3 concurrent client connections, each drawn onto one of three http-proxy ports (own director whose host has a port / two services on two ports sharing ONE director whose host has no port, backends at 127.0.0.2:<same port>, so successive connections alternate between the shared director's ports in drawn order), each 1..4 requests (11 methods, origin-form targets with pct-encoding and queries, 0..10 headers with repeated and differently-cased names, Host naming the decoy, bodies 0..64 KiB as Content-Length or chunked, body content random / text / HTTP look-alike), lock-step or pipelined, one cut of the client stream (none, in the first head, around a request boundary, anywhere), the client half-closing after its last request byte (1 in 3); backend replies (15 status codes, 0..6 headers, bodies 0..64 KiB as Content-Length or chunked) written in 1..5 pieces; oracle: backend's parsed view == sent, client's parsed view == backend's script, events attributed to the client's address, decoy untouched; non-trivial = a request with a body or >=2 requests on one connection"
 
 func TestHTTP(t *testing.T) {
 	r := vlib.Open(prop)
@@ -749,6 +762,9 @@ func TestHTTP(t *testing.T) {
 		for _, hc := range c.Conns {
 			if hc.Cut > 0 {
 				r.Label("http/conn/cut", 1)
+			}
+			if hc.HalfClose {
+				r.Label("http/conn/client-half-close", 1)
 			}
 			r.Label(fmt.Sprintf("http/conn/director=%s", []string{"host-with-port", "shared-portless/port-a", "shared-portless/port-b"}[hc.Svc%3]), 1)
 			for _, q := range hc.Reqs {
